@@ -833,7 +833,8 @@ func mutations(e *emitter, r *hx.Rng, s spec) {
 		return q, nil
 	}
 
-	// eContentType (the stated gap: accepted)
+	// eContentType: with authenticated attributes the signed contentType attribute names the old type and the change must
+	// be rejected (fix F31); without attributes nothing in PKCS#7 covers the type: not a protected part, accepted
 	{
 		q := p
 		if cc, has := ciContent(p.ci); has {
@@ -841,7 +842,11 @@ func mutations(e *emitter, r *hx.Rng, s spec) {
 		} else {
 			q.ci = mkCI(oidTLV(oidOtherType), nil, false)
 		}
-		m("ectype", "1", q, ext)
+		if s.attrs {
+			m("ectype", "1", q, ext)
+		} else {
+			m("ectype-noattrs", "0", q, ext)
+		}
 	}
 
 	// signer infos
@@ -1020,6 +1025,39 @@ func mutations(e *emitter, r *hx.Rng, s spec) {
 		m("md-second", "1", setAttrs(func(as [][]byte) [][]byte {
 			return append(as, mkAttr(pkcs7.OidAttributeMessageDigest, tl(0x04, digestOf(s.hash, c2))))
 		}), ext)
+		// attribute lists signed by the key holder whose contentType attribute is missing / names another type / has two
+		// values / is not an OID / is a malformed OID: the signature is good, the binding check must refuse
+		if !s.pss {
+			signed := func(f func(as [][]byte) [][]byte) sdParts {
+				return withSI(p, 0, func(x *siParts) {
+					x.attrs = f(append([][]byte{}, x.attrs...))
+					sig, err := leaves[s.key].key.Sign(nil, digestOf(s.hash, tl(0x31, x.attrs...)), s.hash)
+					if err != nil {
+						panic(err)
+					}
+					x.sig = sig
+				})
+			}
+			m("ct-missing-signed", "0", signed(func(as [][]byte) [][]byte { return append(as[:ctI], as[ctI+1:]...) }), ext)
+			m("ct-wrong-signed", "0", signed(func(as [][]byte) [][]byte {
+				as[ctI] = mkAttr(pkcs7.OidAttributeContentType, oidTLV(oidOtherType))
+				return as
+			}), ext)
+			m("ct-multi-signed", "0", signed(func(as [][]byte) [][]byte {
+				as[ctI] = mkAttr(pkcs7.OidAttributeContentType, oidTLV(pkcs7.OidData), oidTLV(pkcs7.OidData))
+				return as
+			}), ext)
+			m("ct-type-signed", "0", signed(func(as [][]byte) [][]byte {
+				as[ctI] = mkAttr(pkcs7.OidAttributeContentType, tl(0x04, []byte{0x2a, 0x03}))
+				return as
+			}), ext)
+			m("ct-badoid-signed", "0", signed(func(as [][]byte) [][]byte {
+				bad := [][]byte{{0x2a, 0x80, 0x01}, {0x2a, 0x86}, {}, {0x2a, 0x90, 0x80, 0x80, 0x80, 0x00}, {0x2a, 0x8f, 0xff, 0xff, 0xff, 0x7f}}
+				as[ctI] = mkAttr(pkcs7.OidAttributeContentType, tl(0x06, bad[r.Intn(len(bad))]))
+				return as
+			}), ext)
+			m("ct-resigned-same", "0", signed(func(as [][]byte) [][]byte { return as }), ext)
+		}
 		// attribute-less reinterpretation: drop the attributes and present the attribute bytes as the content
 		{
 			ab := tl(0x31, si.attrs...)
@@ -1096,7 +1134,12 @@ func errClass(err error) string {
 	case errors.As(err, &ude):
 		return "digest-alg"
 	case errors.As(err, &ena):
+		if ena.ID.Equal(pkcs7.OidAttributeContentType) {
+			return "no-ct-attr"
+		}
 		return "no-md-attr"
+	case strings.Contains(msg, "content type attribute does not match"):
+		return "ctype-mismatch"
 	case strings.Contains(msg, "expected one, found multiple"):
 		return "attr-multiple"
 	case strings.Contains(msg, "content digest does not match"):
